@@ -220,7 +220,13 @@ def build(Q, tf, cls, attrs, route, extra):
   C = getattr(Q, cls)
   if route in ("string", "string_blank", "string_pos"):
     return Q.get_quantizer(string_text(cls, attrs, route == "string_blank", route == "string_pos"))
+  if route == "string_layer":
+    from qkeras import QActivation     # pylint: disable=import-outside-toplevel
+    return QActivation(string_text(cls, attrs, False, False)).quantizer
   kw = _kwargs(tf, cls, attrs, extra)
+  if route == "registry":
+    from qkeras import quantizer_registry     # pylint: disable=import-outside-toplevel
+    return quantizer_registry.lookup_quantizer(cls)(**kw)
   if route == "ctor_pos":
     if cls == "binary":
       pos = [kw.pop("use_01"), kw.pop("alpha")]
@@ -522,7 +528,7 @@ def gen(rng, tier):
   for _ in range(reps):
     # ---- A. alpha in every numeric form x every class x routes x containers x ranks 0..5
     for cls in CLASSES:
-      routes = ["ctor_kw", "ctor_pos", "dict", "from_config"]
+      routes = ["ctor_kw", "ctor_pos", "dict", "from_config", "registry"]
       for form in FLOAT_FORMS + INT_FORMS:
         a = scalar_alpha(rng, form)
         x = small_tensor(rng)
@@ -540,7 +546,7 @@ def gen(rng, tier):
                             route=routes[int(rng.integers(0, len(routes)))]))
     # ---- B. the string route (python literals), blanks, positional; an alias object from the same text
     for cls in CLASSES:
-      for route in ("string", "string_blank", "string_pos"):
+      for route in ("string", "string_blank", "string_pos", "string_layer"):
         if route == "string_pos" and cls == "stochastic_binary":
           continue
         for form in ("pyint", "pyfloat"):
